@@ -2,6 +2,12 @@
 
 package event
 
+import (
+	"github.com/weaveworks/mesh"
+
+	vs "github.com/emitter-io/emitter/internal/verifspec"
+)
+
 // Hostile input (property C09): the keys of the replicated subscription / connection sets arrive in gossip
 // payloads; decodeSubscription and decodeConnection are called on every one of them (State.Subscriptions, on the
 // gossip goroutine). Safety for ANY key string and value.
@@ -13,3 +19,50 @@ func inv_decodeSubscription(i int, buffer []byte, e Subscription) bool {
 }
 
 //@ verify decodeConnection props=C09
+
+// ---------------------------------------------------------------------------------------------------------
+// State.Merge (properties C13, C04). What it does: merges the argument into the receiver set by set (each
+// Map.Merge turns the argument's set into the delta), and returns the argument - now the delta - or nil when every
+// delta is empty.
+
+//@ assume (github.com/emitter-io/emitter/internal/event/crdt.Map).Merge iface
+//@ assume (github.com/emitter-io/emitter/internal/event/crdt.Map).Count iface post=post_Map_Count
+func post_Map_Count(res0 int) bool { return 0 <= res0 && res0 <= 1<<40 }
+
+func pre_State_Merge(st *State, other mesh.GossipData) bool {
+	o, ok := other.(*State)
+	return st != nil && ok && o != nil && st.subsets != nil && o.subsets != nil &&
+		vs.ForallKey(st.subsets, func(k uint8) bool { return !vs.Has(st.subsets, k) || st.subsets[k] != nil }) &&
+		vs.ForallKey(o.subsets, func(k uint8) bool { return !vs.Has(o.subsets, k) || o.subsets[k] != nil }) &&
+		vs.ForallKey(st.subsets, func(k uint8) bool { return !vs.Has(st.subsets, k) || vs.Has(o.subsets, k) })
+}
+
+// the delta contract: nil exactly when no set reports anything new; otherwise the argument itself (explored for
+// states of up to three sets - there are exactly three: subscriptions, bans, connections; stated bounded)
+//@ verify (*State).Merge pre=pre_State_Merge post=post_State_Merge_delta props=C13
+//@ loop (*State).Merge 0 unroll 3 bounded
+func post_State_Merge_delta(st *State, other mesh.GossipData, res0 mesh.GossipData) bool {
+	n := vs.TraceCount("Map).Count")
+	sum := 0
+	if n >= 1 {
+		sum += vs.TraceRet[int](vs.TraceFindNth("Map).Count", 0), 0)
+	}
+	if n >= 2 {
+		sum += vs.TraceRet[int](vs.TraceFindNth("Map).Count", 1), 0)
+	}
+	if n >= 3 {
+		sum += vs.TraceRet[int](vs.TraceFindNth("Map).Count", 2), 0)
+	}
+	return vs.TraceCount("Map).Merge") == n && ((sum == 0 && res0 == nil) || (sum > 0 && res0 == other))
+}
+
+// What the gossip transport expects of GossipData.Merge (weaveworks/mesh gossipSender: `pending = pending.Merge(new)`
+// when a second payload is queued for a link before the first was sent): the RESULT carries every update of both.
+// The only object that holds both after State.Merge is the receiver; State.Merge returns the argument's delta (or
+// nil). So a queued payload A followed by B leaves B's delta pending and A is never sent on that link; if B
+// brought nothing new the pending payload becomes nil. Isolated here: known finding (C13, also behind C05).
+//@ verify (*State).Merge as=coalescing pre=pre_State_Merge post=post_State_Merge_union props=C13
+//@ loop (*State).Merge 0 unroll 3 bounded for=coalescing
+func post_State_Merge_union(st *State, other mesh.GossipData, res0 mesh.GossipData) bool {
+	return res0 == mesh.GossipData(st)
+}
